@@ -60,6 +60,16 @@ def check_toposort(col: Collector, rule: str):
     workers = [(ev, ev.term) for ev in top.events if ev.kind == "call" and ev.term[1][:1] == ("glob",)
                and ev.term[1][1] in m.functions and ev.term[1][1] not in ("reduce", "toposort") and len(ev.term[2]) == 4]
     if not workers:
+        # a module-level worker that is handed the graph but not a set: it cannot know what earlier start vertices reached
+        cand = [ev for ev in top.events if ev.kind == "call" and ev.term[1][:1] == ("glob",) and ev.term[1][1] in m.functions
+                and ev.term[1][1] not in ("reduce", "toposort") and graph_p in ev.term[2]]
+        blind = [ev for ev in cand if not any(a[:1] == ("acc",) and a[1] == "set" for x in ev.term[2] for a in S.alts(x))]
+        if cand and len(blind) == len(cand):
+            col.fail(rule, "sorting.toposort#worker-shares-visited", top.loc(blind[0]),
+                     "the DFS worker works on the caller's visited set, so that a vertex reached from an earlier start vertex "
+                     "is neither traversed nor emitted a second time",
+                     f"worker call {S.show(blind[0].term)[:120]} passes no visited set")
+            return None
         raise AnalysisError("sorting.toposort: no call to a module-level DFS worker with (graph, vertex, out, visited) found "
                             "(unrecognised shape) -- cannot decide")
     worker_name = workers[0][1][1][1]
